@@ -953,7 +953,22 @@ func runSweepGuard(c *core.Ctx) {
 		retBools = map[ssa.Value]bool{}
 		an.Instrs(fn, func(in ssa.Instruction) {
 			if ret, ok := in.(*ssa.Return); ok {
+				results := append([]ssa.Value{}, ret.Results...)
+				// a result record (a struct of the package built in place): its boolean fields are results too
 				for _, rv := range ret.Results {
+					if _, isStruct := rv.Type().Underlying().(*types.Struct); isStruct {
+						ss := structStores(an.Origin(rv))
+						if len(ss) == 0 {
+							if u, ok := an.Strip(rv).(*ssa.UnOp); ok {
+								ss = structStores(u.X)
+							}
+						}
+						for _, vals := range ss {
+							results = append(results, vals...)
+						}
+					}
+				}
+				for _, rv := range results {
 					if bt, ok := rv.Type().Underlying().(*types.Basic); ok && bt.Kind() == types.Bool {
 						var mark func(v ssa.Value, d int)
 						mark = func(v ssa.Value, d int) {
